@@ -240,11 +240,11 @@ from schemathesis.specs.openapi import _hypothesis as oh
 
 RAW_X = {"openapi": "3.0.2", "info": {"title": "t", "version": "1"}, "paths": {"/x": {"get": dict(_OK, parameters=[
     {"name": "rq", "in": "query", "required": True, "schema": {"type": "string"}}, {"name": "oq", "in": "query", "schema": {"type": "integer"}},
-    {"name": "X-R", "in": "header", "required": True, "schema": {"type": "string"}}, {"name": "X-O", "in": "header", "schema": {"type": "string"}},
+    {"name": "X-O", "in": "header", "schema": {"type": "string"}}, {"name": "X-R", "in": "header", "required": True, "schema": {"type": "string"}},
     {"name": "oc", "in": "cookie", "schema": {"type": "string"}}])}}}
 OP_X = schemathesis.openapi.from_dict(RAW_X)["/x"]["GET"]
 list(OP_X.iter_parameters())
-DECLARED = {"query": [("rq", True), ("oq", False)], "header": [("X-R", True), ("X-O", False)], "cookie": [("oc", False)]}
+DECLARED = {"query": [("rq", True), ("oq", False)], "header": [("X-O", False), ("X-R", True)], "cookie": [("oc", False)]}
 
 
 class _Recorded:
@@ -360,28 +360,28 @@ def probes_leave_configuration(op: int, status: int, probe1: int, probe2: int, e
 
 
 OBLIGATIONS = [
-    Ob(fn="probes_leave_configuration", clause="the probes that deliberately strip credentials strip them from their own requests only: the user's configured headers (from which every later request is built) are unchanged afterwards, other configured headers still travel with the probes",
+    Ob(fn="probes_leave_configuration", props=["C14"], clause="the probes that deliberately strip credentials strip them from their own requests only: the user's configured headers (from which every later request is built) are unchanged afterwards, other configured headers still travel with the probes",
        timeout=300, functions=["schemathesis.specs.openapi.checks.ignored_auth", "schemathesis.specs.openapi.checks.remove_auth", "schemathesis.specs.openapi.checks._remove_auth_from_explicit_headers",
                                "schemathesis.specs.openapi.checks._contains_auth", "schemathesis.specs.openapi.checks._set_auth_for_case"],
        symbolic="security scheme (apiKey header / http bearer), status of the original response (2xx), answers to the two probes, presence of another configured header", bounds="2 schemes x 100 statuses x 3 x 2 probe answers",
        stubs=["transport.send replaced by a recorder answering with scripted statuses", "the random source of case ids replaced by a counter"]),
-    Ob(fn="fixed_parameters_not_generated", clause="the user's value wins over any generated value of the same name: a parameter fixed by an override / example / link is removed from what the generator may produce, whether it is required or optional",
+    Ob(fn="fixed_parameters_not_generated", props=["C14", "C17"], clause="the user's value (and a schema example, which is sent unchanged) wins over any generated value of the same name: a parameter fixed by an override / example / link is removed from what the generator may produce, whether it is required or optional",
        timeout=200, functions=["schemathesis.specs.openapi._hypothesis.get_parameters_strategy", "schemathesis.specs.openapi._hypothesis.get_schema_for_location"],
-       symbolic="location (query / header / cookie), which of its declared parameters (one required, one optional) and an undeclared name are fixed", bounds="3 locations x 2^3 subsets",
+       symbolic="location (query: required before optional / header: optional before required / cookie), which of its declared parameters and an undeclared name are fixed", bounds="3 locations x 2^3 subsets",
        stubs=["the strategy factory is a recorder of the schema it is given"], outside=["the merge of generated and fixed values in get_parameters_value (covered for the unit phase by strategy_kwargs)"]),
-    Ob(fn="token_cache", clause="an auth provider's token is fetched at most once per refresh interval and cache key - also when a concurrent worker refreshes the same key while this one waits for the lock; the returned token is the latest",
+    Ob(fn="token_cache", props=["C14"], clause="an auth provider's token is fetched at most once per refresh interval and cache key - also when a concurrent worker refreshes the same key while this one waits for the lock; the returned token is the latest",
        timeout={"quick": 300, "thorough": 900}, params=range(4), functions=["schemathesis.auths.CachingAuthProvider.get", "schemathesis.auths.KeyedCachingAuthProvider._get_cache_entry",
                                                                            "schemathesis.auths.KeyedCachingAuthProvider._set_cache_entry"],
        symbolic="clock increments (6 reads), refresh interval, cache key of each of 3 lookups, keyed or plain cache, whether another worker refreshed during the lock wait (lookups 1 and 2)",
        bounds="3 lookups; 2 keys; clock steps 0..5; interval 1..6",
        stubs=["time.monotonic replaced by a symbolic non-decreasing integer clock", "threading.Lock replaced by a hook lock: one sequentialised interleaving per path (a completed refresh by another worker just before the lock is granted)"],
        outside=["other interleavings of real threads"]),
-    Ob(fn="header_precedence", clause="user-configured headers win over generated ones of the same name in any letter case; only User-Agent and the case-id header are added",
+    Ob(fn="header_precedence", props=["C14"], clause="user-configured headers win over generated ones of the same name in any letter case; only User-Agent and the case-id header are added",
        timeout=150, functions=["schemathesis.transport.prepare.prepare_headers"], symbolic="spelling of the user's header name, what was generated, whether the user sets User-Agent", bounds="3 spellings x 3 generated shapes"),
-    Ob(fn="strategy_kwargs", clause="--set-* overrides reach generation exactly for the operations that declare the parameter; configured headers reach every operation",
+    Ob(fn="strategy_kwargs", props=["C14"], clause="--set-* overrides reach generation exactly for the operations that declare the parameter; configured headers reach every operation",
        timeout=200, functions=["schemathesis.engine.phases.unit.get_strategy_kwargs", "schemathesis.generation.overrides.Override.for_operation", "schemathesis.generation.overrides._for_parameters"],
        symbolic="which of the 4 override kinds are set, which operation (declaring all / none / a path parameter), configured network headers (3)", bounds="3 operations"),
-    Ob(fn="coverage_overrides", clause="in the coverage phase user headers/overrides win over generated values and auth is set on every case",
+    Ob(fn="coverage_overrides", props=["C14"], clause="in the coverage phase user headers/overrides win over generated values and auth is set on every case",
        timeout=200, functions=["schemathesis.generation.hypothesis.builder.add_coverage", "schemathesis.auths.set_on_case", "schemathesis.auths.AuthStorage.set"],
        symbolic="what the case generator produced for headers/query (nothing, empty, clashing), auth provider present, number of cases", bounds="1-2 cases",
        stubs=["_iter_coverage_cases replaced by a fixed list of cases", "hypothesis.example replaced by a recorder"]),
